@@ -563,6 +563,24 @@ func (c *Conn) WriteTo(w io.Writer) (int64, error) {
 	}
 }
 
+// File mirrors (*net.TCPConn).File: a planned "file" fault makes it fail (dup(2) runs out of
+// descriptors under load; the real error is an *net.OpError that names both endpoints); without a
+// fault it hands out a descriptor of /dev/null (there is no socket behind a simulated connection).
+func (c *Conn) File() (*os.File, error) {
+	c.mu.Lock()
+	idx := c.count["file"]
+	c.count["file"] = idx + 1
+	f, ok := c.plan[opKey{"file", idx}]
+	c.mu.Unlock()
+	if ok {
+		c.lg.Fault(f.Name)
+		c.logf("file#%d -> FAULT %s", idx, f.Name)
+		return nil, f.Err
+	}
+	c.logf("file#%d -> /dev/null", idx)
+	return os.Open(os.DevNull)
+}
+
 // SetLinger records SO_LINGER (see Close). It fails on a closed connection like the real call.
 func (c *Conn) SetLinger(sec int) error {
 	c.mu.Lock()
